@@ -165,7 +165,7 @@ theorem findSymbol_eq (chain : List Frame) (syms : Syms) (n : Name) :
   split
   · refine ⟨?_, ?_, rfl⟩
     · split
-      · exact LinksEq.pin _ _
+      · exact pinLinks_ind (fun a => LinksEq syms a) (fun a i h => h.trans (LinksEq.pin a i)) _ _ _ (.refl _)
       · exact .refl _
     · split <;> simp
   · simp only [newSymbol]
